@@ -6,20 +6,33 @@ import re
 ID = "C19"
 COQ_PROOF_TARGETS = ["Props/C19.vo"]
 COQ_MODEL_TARGETS = ["Extract/ExC19.vo"]
-CLAIM_TEXT = ("see coq/Props/C19.v")
-CLAIM_NOTE = ("see DESIGN.md")
+CLAIM_TEXT = ("Theorems (coq/Props/C19.v, no axioms) over a model of the line splitter, the dispatcher (which section a line is attached "
+              "to), both printers, the media line, direction / flag / unknown attributes, the token tables and the keying-material lifetime: "
+              "parse(print(d)) = d at the level of lines for EVERY description with any number of media sections and attributes "
+              "(C19_attach) and at the level of text for every description whose printed lines are well formed (C19_roundtrip, via "
+              "C19_media_roundtrip and the classification of every rendered line); tokens are matched whole (C19_direction_whole, "
+              "C19_media_type_whole, C19_protocol_verbatim, C19_suite_verbatim); lifetimes round-trip and an exponent >= 32 is refused "
+              "instead of overflowing (C19_lifetime_*); token tables and matcher forms are regenerated from the source (C19_tables). "
+              "Correspondence: 400 (thorough 8000) generated descriptions over every field's grammar written as canonical SDP, parsed by the "
+              "real parser (field-wise dump = the generator's structure), printed (bytes = the model's printer on the same description) "
+              "and parsed again (dump unchanged); mutated and random texts: no panic, and whatever parses survives print -> parse; the "
+              "model's dispatcher shape = the implementation's for every text it accepts.")
+CLAIM_NOTE = ("PARTIAL: the field payloads with their own nom parser (origin, time, connection, bandwidth, rtcp, rtpmap, fmtp, candidate, "
+              "crypto remainder) are opaque in the model; their print/parse round trips and panic freedom are decided by the differential "
+              "runs only. Values that have no text form (IPv4 connection with a count but no TTL, an empty FEC_KEY list, a protocol token "
+              "beginning with '/') are outside the grammar the property quantifies over and excluded by media_wf / the generator.")
 TRUSTED = [
     "Coq 8.16.1 kernel; no axioms",
     "hand-written model coq/Model/C19.v; token tables regenerated from sdp-types by tools/translate_tables.py",
     "extraction (ExtrOcamlBasic only) + ocaml/util.ml + ocaml/c19_driver.ml",
     "Rust harness harness/src/c19.rs (field-wise dump of the public structs); Python generator/printer of canonical SDP in tools/props/c19.py",
 ]
-ASSUMPTIONS = []
+ASSUMPTIONS = ["the unmodelled field parsers accept the canonical payload they print (validated field-wise by the harness on every generated description)"]
 RULE = ("descriptions over every field's grammar: 0..3 media sections, 0..3 of each attribute, addresses (IPv4/IPv6 literals and host names), "
         "numeric fields at 0 / 1 / max, all transport protocol and suite tokens plus tokens that extend them by one character, directions at "
         "both levels, ICE attributes, crypto lines with lifetimes 2^n and plain, unknown attributes with and without value; texts: the "
         "canonical rendering, mutations of it and random strings")
-PARTIAL = []
+PARTIAL = ["field payload parsers (origin, time, connection, bandwidth, rtcp, rtpmap, fmtp, candidate, crypto remainder) are abstracted by a validity predicate; exercised, not proved"]
 
 SUITES = ["AES_CM_128_HMAC_SHA1_80", "AES_CM_128_HMAC_SHA1_32", "F8_128_HMAC_SHA1_80", "AES_192_CM_HMAC_SHA1_80", "AES_192_CM_HMAC_SHA1_32",
           "AES_256_CM_HMAC_SHA1_80", "AES_256_CM_HMAC_SHA1_32", "AEAD_AES_128_GCM", "AEAD_AES_256_GCM"]
@@ -396,7 +409,7 @@ def oracle(case, impl):
     if case[2] == "val":
         if impl in ("ERR", "NOT-UTF8"):
             return ["a description written in canonical SDP is rejected by the parser"]
-        m = re.match(r"D1=(.*)\tT2=(\S*)\tD2=(.*)$", impl)
+        m = re.match(r"D1=(.*)\tT2=(\S*)\tD2=(.*)\tSH=", impl)
         if not m:
             return ["no observation: " + impl[:200]]
         d1, t2, d2 = m.groups()
@@ -407,7 +420,7 @@ def oracle(case, impl):
     else:
         if impl in ("ERR", "NOT-UTF8"):
             return out
-        m = re.match(r"D1=(.*)\tT2=(\S*)\tD2=(.*)$", impl)
+        m = re.match(r"D1=(.*)\tT2=(\S*)\tD2=(.*)\tSH=", impl)
         if m and m.group(3) != m.group(1):
             out.append("accepted text does not survive print -> parse: " + _first_diff(m.group(1), m.group(3)) + "  printed: " + repr(bytes.fromhex(m.group(2)).decode("utf-8", "replace"))[:300])
     return out
@@ -418,6 +431,27 @@ def _first_diff(a, b):
     while i < min(len(a), len(b)) and a[i] == b[i]:
         i += 1
     return "expected ...%s, got ...%s" % (a[max(0, i - 30):i + 50], b[max(0, i - 30):i + 50])
+
+
+def normalize_impl(case, s):
+    s = s.split("\tPANIC")[0]
+    m = re.search(r"\tSH=(.*)$", s)
+    t2 = re.search(r"\tT2=(\S*)", s)
+    return (m.group(1) if m else s) + ("\tT2=" + t2.group(1) if t2 else "")
+
+
+def accepts(case, impl, model):
+    """model: shape of its own parse, and its own print of that (as hex); compared when the implementation parsed the text"""
+    if not impl.startswith("S{"):
+        return True        # rejected by a field parser the model abstracts (or not UTF-8)
+    ishape, _, it2 = impl.partition("\tT2=")
+    mshape, _, mt2 = model.partition("\tT2=")
+    if ishape != mshape:
+        return False
+    if case[2] == "val":
+        # canonical field payloads: the model's printer (same line order, payloads verbatim) must produce the implementation's bytes
+        return it2 == mt2.split("\t")[0]
+    return True
 
 
 def nontrivial(case, impl):
